@@ -176,6 +176,11 @@ def judge_order(prop, level, obs, ex, m, before_state):
 def judge_reporting(obs, ex, m, before_state):
     """C06: nothing named is skipped silently; fully applied => no warning."""
     fails = []
+    if m.level == 'meta' and not obs.parse_exc and obs.exc is None and obs.warns:
+        # roMetadataReplace / roReplace / roReadyToAir / roDelete name no story or item:
+        # when they are applied nothing can be "not found"
+        return [Failure('C06', f'C06|{m.kind}|fully-applied|unexpected-warning',
+                        f'{m.kind} was applied but emitted {dict(obs.warns)}', {}, dict(obs.warns))]
     if m.level not in ('story', 'item') or obs.parse_exc or ex.degenerate or not ex.allowed:
         return fails
     if obs.exc is not None:
@@ -234,6 +239,10 @@ def judge_contained(obs, m):
 
 # ------------------------------------------------------------------------ C03
 
+def _lay(x):
+    return '' if (x is None or not x.strip()) else x
+
+
 def _named_sets(m, ex, existing=()):
     """IDs the message names, per side.  Returns (level, before_named, after_named,
     moved) where *_named are sets of IDs whose elements are excluded from the frame
@@ -263,7 +272,7 @@ def _named_sets(m, ex, existing=()):
 
 
 def _frame(parent, tag, idfn, named):
-    return [(canon(c), c.tail or '') for c in parent
+    return [(canon(c), _lay(c.tail)) for c in parent
             if not (c.tag == tag and idfn(c) in named)]
 
 
@@ -294,8 +303,8 @@ def judge_frame(obs, ex, m):
         fails.append(Failure('C03', f'C03|{k}|{ref_shape(m, ex)}|{mode}', f'{k}: {detail}'))
 
     # the envelope (children of the root other than roCreate / completion record)
-    envb = [(canon(c), c.tail or '') for c in rb if c.tag not in ('roCreate', 'mosromgrmeta')]
-    enva = [(canon(c), c.tail or '') for c in ra if c.tag not in ('roCreate', 'mosromgrmeta')]
+    envb = [(canon(c), _lay(c.tail)) for c in rb if c.tag not in ('roCreate', 'mosromgrmeta')]
+    enva = [(canon(c), _lay(c.tail)) for c in ra if c.tag not in ('roCreate', 'mosromgrmeta')]
     if envb != enva or rb.attrib != ra.attrib:
         fail('envelope-changed', _frame_diff(envb, enva) or 'root attributes changed')
     if k == 'RunningOrderReplace':
@@ -314,7 +323,7 @@ def judge_frame(obs, ex, m):
             if c.tag == 'mosExternalMetadata':
                 return xmlcmp.child_text(c, 'mosSchema')[1] in schemas
             return c.tag in tags
-        fb = [(canon(c), c.tail or '') for c in rcb if not named_b(c)]
+        fb = [(canon(c), _lay(c.tail)) for c in rcb if not named_b(c)]
         # after: drop one child per carried element that equals it, then the rest
         # must be the un-named children of before, in order
         remaining = [canon(c) for c in carried]
@@ -324,7 +333,7 @@ def judge_frame(obs, ex, m):
             if cc in remaining and named_b(c):
                 remaining.remove(cc)
                 continue
-            fa.append((cc, c.tail or ''))
+            fa.append((cc, _lay(c.tail)))
         d = _frame_diff(fb, fa)
         if d:
             fail('collateral', d)
